@@ -49,6 +49,10 @@ func c11exec(c *h.Ctx, cs *h.Case) {
 	everUsed := map[int]bool{}
 	msgTok := map[int]int{}
 	doneSeen := map[int]bool{}
+	doneReturned := map[int]bool{}     // Done() of the instance has returned
+	holding := map[int]chan struct{}{} // instance -> gate its handlers wait at (`hold`/`release`)
+	atGate := map[int]int{}            // handlers of the instance blocked at the gate
+	var late []string
 	fix.ResetRecs()
 	// gate: token id -> thread key; the constructor of that instance parks at "ctor" until `ctorret`
 	gate := map[string]string{}
@@ -67,6 +71,36 @@ func c11exec(c *h.Ctx, cs *h.Case) {
 				mu.Unlock()
 			}
 		}
+		rec.OnEnter = func(d fix.Delivery) {
+			if d.Ty != 3 {
+				return
+			}
+			id := rec.Tni.Token().ID()
+			mu.Lock()
+			k := -1
+			for kk, t := range tokens {
+				if t.ID() == id {
+					k = kk
+				}
+			}
+			var gate chan struct{}
+			if k >= 0 {
+				if doneReturned[k] {
+					late = append(late, fmt.Sprintf("the handler of instance %d was called with message %d after the instance's Done() had returned", k, d.Items[0].V))
+				}
+				gate = holding[k]
+				if gate != nil {
+					atGate[k]++
+				}
+			}
+			mu.Unlock()
+			if gate != nil {
+				<-gate
+				mu.Lock()
+				atGate[k]--
+				mu.Unlock()
+			}
+		}
 	}
 	onet.VerifSetHook(func(name string, key interface{}) {
 		if pm, ok := key.(*onet.ProtocolMsg); ok {
@@ -76,6 +110,12 @@ func c11exec(c *h.Ctx, cs *h.Case) {
 		}
 	})
 	defer func() {
+		mu.Lock()
+		for k, g := range holding {
+			close(g)
+			delete(holding, k)
+		}
+		mu.Unlock()
 		ctl.ReleaseAll()
 		onet.VerifSetHook(nil)
 		fix.Prepare = nil
@@ -124,6 +164,12 @@ func c11exec(c *h.Ctx, cs *h.Case) {
 		for _, k := range done {
 			doneSeen[k] = true
 		}
+		mu.Lock()
+		for _, l := range late {
+			cs.Fail("handler-after-done", l)
+		}
+		late = nil
+		mu.Unlock()
 		for k := range doneSeen {
 			if ov.VerifInstanceState(tokens[k]) != "done" {
 				cs.Fail("finished-instance-listed-again", fmt.Sprintf("instance %d was done and is %s now", k, ov.VerifInstanceState(tokens[k])))
@@ -265,8 +311,39 @@ func c11exec(c *h.Ctx, cs *h.Case) {
 				cs.Impl = append(cs.Impl, "disabled")
 				return true
 			}
+			// strict only when the reader sits inside a held handler: then nothing else is in flight and
+			// whatever is queued behind it must be dropped
+			mu.Lock()
+			strict := atGate[k] > 0
+			mu.Unlock()
 			fix.RecOf(tok).Tni.Done()
+			mu.Lock()
+			doneReturned[k] = strict
+			mu.Unlock()
 			cs.Impl = append(cs.Impl, obs())
+		case len(tk) == 3 && tk[1] == "hold":
+			// from now on every handler of instance k blocks until `release k` lets one return
+			k, _ := strconv.Atoi(tk[2])
+			mu.Lock()
+			if holding[k] == nil {
+				holding[k] = make(chan struct{})
+			}
+			mu.Unlock()
+			cs.Impl = append(cs.Impl, "ok")
+		case len(tk) == 3 && tk[1] == "release":
+			k, _ := strconv.Atoi(tk[2])
+			mu.Lock()
+			g := holding[k]
+			mu.Unlock()
+			if g != nil {
+				select {
+				case g <- struct{}{}:
+					time.Sleep(2 * time.Millisecond) // the reader goes on to the next queued message, if any
+				case <-time.After(20 * time.Millisecond):
+				}
+			}
+			obs() // evaluates the oracle
+			cs.Impl = append(cs.Impl, "ok")
 		case len(tk) == 2 && tk[1] == "peerreq":
 			// a slow peer asks for the tree; the reply goes to server 0, whose processor counts it
 			before := atomic.LoadInt64(&replies)
@@ -387,6 +464,9 @@ func c11gen(c *h.Ctx, yield func(*h.Case)) {
 	// an instance finishes while another run's constructor is still running: the tree must stay
 	yield(&h.Case{Class: "corpus-done-during-constructor", Ops: []string{"c11 localstart 1", "c11 arrive 2 5", "c11 threadc 2 5", "c11 done 1", "c11 peerreq", "c11 wait", "c11 peerreq", "c11 ctorret 2", "c11 arrive 2 6", "c11 thread 2 6"}})
 	yield(&h.Case{Class: "corpus-done-during-constructor", Ops: []string{"c11 localstart 1", "c11 arrive 2 5", "c11 arrive 3 6", "c11 threadc 2 5", "c11 thread 3 6", "c11 done 2", "c11 done 1", "c11 ctorret 2", "c11 thread 3 6", "c11 done 3", "c11 wait"}})
+	// the instance finishes inside the handler of a message that has others queued behind it: they are dropped
+	yield(&h.Case{Class: "corpus-done-with-backlog", Ops: []string{"c11 localstart 1", "c11 hold 2", "c11 arrive 2 5", "c11 thread 2 5", "c11 arrive 2 6", "c11 thread 2 6",
+		"c11 arrive 2 7", "c11 thread 2 7", "c11 arrive 2 8", "c11 thread 2 8", "c11 release 2", "c11 done 2", "c11 release 2", "c11 release 2", "c11 release 2"}})
 	for n := 0; n < c.Pick(28, 400); n++ {
 		cs := &h.Case{Class: "random"}
 		m := 0
